@@ -104,12 +104,18 @@ def _draw_job(draw, prof, wild, wide=False):
         extra['label'] = draw(st.sampled_from(ODD_LABELS))
     if chance(draw, prof.p_exc):
         extra['exc'] = draw(st.sampled_from(EXC_NAMES))
+        if chance(draw, 40):
+            extra['excmsg'] = draw(st.sampled_from(ODD_LABELS))
+    if chance(draw, 8):
+        extra['late_critical'] = True       # the job turns critical just before raising
     if chance(draw, prof.p_ret):
         extra['ret'] = draw(st.sampled_from(['none', 'zero', 'false', 'empty', 'future-done',
                                              'future-pending', 'exc-object', 'tuple2',
                                              'tuple0', 'list', 'dict']))
     if chance(draw, prof.p_block):
         extra['b'] = draw(st.sampled_from([0.5, 1, 2]))
+    if extra.get('late_critical'):
+        extra['critical_'] = True
     return dict(
         **extra,
         kind='job', id=None,
@@ -120,6 +126,17 @@ def _draw_job(draw, prof, wild, wide=False):
         c=draw(weighted(prof.cs)), sd=draw(weighted(prof.sds)),
         hkey=draw(st.integers(0, prof.hkeys - 1)), tkey=draw(st.integers(0, prof.tkeys - 1)),
         late_attrs=chance(draw, prof.p_late_attrs))
+
+
+def _fix_late_critical(job):
+    # as far as the oracles are concerned a job that turns critical before raising IS
+    # critical (and it only matters when it raises)
+    if job.pop('critical_', None):
+        if job['outcome'] == 'raise':
+            job['critical'] = True
+        else:
+            job.pop('late_critical', None)
+    return job
 
 
 def may_never_end(member):
@@ -178,7 +195,7 @@ def _draw_sched(draw, prof, depth, under_timeout, budget, top=False):
         # Hypothesis bounds the amount of entropy of one example (a few hundred draws): a
         # wide scheduler is made of a few drawn template jobs, varied by a deterministic
         # function of one drawn seed (replay and shrinking work as for any drawn value)
-        templates = [_draw_job(draw, prof, wild, True) for _ in range(4)]
+        templates = [_fix_late_critical(_draw_job(draw, prof, wild, True)) for _ in range(4)]
         state = [draw(st.integers(0, 2 ** 16))]
 
         def lcg():
@@ -204,7 +221,7 @@ def _draw_sched(draw, prof, depth, under_timeout, budget, top=False):
                 member['hkey'] = lcg() % prof.hkeys
                 member['tkey'] = lcg() % prof.tkeys
             else:
-                member = _draw_job(draw, prof, wild)
+                member = _fix_late_critical(_draw_job(draw, prof, wild))
             budget[0] -= 1
         never = may_never_end(member)
         if never and not wild:
@@ -250,6 +267,8 @@ def _draw_sched(draw, prof, depth, under_timeout, budget, top=False):
         watch=chance(draw, prof.p_watch))
     if chance(draw, prof.p_label):
         sched['label'] = draw(st.sampled_from(ODD_LABELS))
+    if wide and window and chance(draw, 30):
+        window = sched['window'] = draw(st.sampled_from([24, 257, 300]))
     if window and not wild:
         never = sum(1 for m in members if may_never_end(m))
         if window <= never:
@@ -257,6 +276,24 @@ def _draw_sched(draw, prof, depth, under_timeout, budget, top=False):
     if top:
         sched['cls'] = 'pure' if chance(draw, prof.p_pure_top) else 'nestable'
     return sched
+
+
+def rescale(spec, factor):
+    """every duration, delay and timeout multiplied by an integer: same ties, other
+    magnitudes (a threshold in seconds sits somewhere)"""
+    for key in ('timeout', 'sdt'):
+        if spec.get(key):
+            spec[key] = spec[key] * factor
+    for m in spec['members']:
+        if m['kind'] == 'sched':
+            rescale(m, factor)
+        else:
+            for key in ('d', 'c', 'sd', 'b'):
+                if isinstance(m.get(key), (int, float)) and m.get(key):
+                    m[key] = m[key] * factor
+            if m['d'] == 'tick':
+                m['tickp'] = factor
+    spec['scale'] = factor
 
 
 def _force_abstract(spec):
@@ -296,7 +333,12 @@ def scenarios(draw, prof=GENERAL):
         if len(top['members']) > 130:
             top['prelude'] = False
     top['entry'] = draw(weighted((('run', 6), ('orchestrate', 1), ('co_run', 2),
-                                  ('run-no-current-loop', 1))))
+                                  ('run-no-current-loop', 1), ('co_run-called-early', 1))))
+    if top['entry'] == 'co_run-called-early' and chance(draw, 60) \
+            and len(top['members']) <= 130:
+        top['prelude'] = True       # the coroutine is obtained before the final wiring
+    if chance(draw, 5):
+        rescale(top, 40)            # minutes rather than seconds: 0.25 -> 10, 8 -> 320
     if chance(draw, prof.p_rerun):
         top['rerun'] = True
         if chance(draw, 50) and len(top['members']) <= 130:
@@ -372,7 +414,7 @@ def ladder_case(n, kind, window, variant=0):
     return assign_ids(sched)
 
 
-def ladder_sweep(kinds, windows=(None, 3, 24), sizes=LADDER):
+def ladder_sweep(kinds, windows=(None, 3, 24, 300), sizes=LADDER):
     """[(name, nchunks, chunk_fn)] entry for a property module's sweeps()"""
     combos = [(n, kind, w) for n in sizes for kind in kinds for w in windows]
 
